@@ -525,8 +525,12 @@ func (pd *perRawBitData) parseSequenceOf(v reflect.Value, params fieldParameters
 		}
 	} else {
 		perTrace(3, fmt.Sprintf("Encoding Length(%d) of \"SEQUENCE OF\" with Semi-Constraint Range(%d..)", numElements, lb))
-		pd.appendAlignBits()
-		pd.bytes = append(pd.bytes, byte(numElements&0xff))
+		if numElements > 16383 {
+			return fmt.Errorf("SEQUENCE OF with %d elements needs a fragmented length, which is not supported", numElements)
+		}
+		if err := pd.appendLength(sizeRange, uint64(numElements)); err != nil {
+			return err
+		}
 		perTrace(1, perRawBitLog(8, len(pd.bytes), pd.bitsOffset, uint64(numElements)))
 	}
 	perTrace(2, fmt.Sprintf("Encoding  \"SEQUENCE OF\" struct %s with len(%d)", v.Type().Elem().Name(), numElements))
